@@ -294,4 +294,604 @@ theorem invS'_stop {s : St} {t : Tid} (h : InvS' s) (hp : (s.loc t).pc = .b0) :
     InvS' (setLoc s t { s.loc t with pc := .idle, bg := false }) :=
   h.locOnly' _ same_glob rfl ((h.thr t).toIdle (by rw [hp]; rfl) _ (h.thr t).result_ok) (by simp [Loc.hasSeq])
 
+/-! ### steps that change the shared state -/
+
+theorem invS'_tick {s : St} (d : Nat) (h : InvS' s) : InvS' { s with now := s.now + d } :=
+  h.locOnly 0 ⟨rfl, rfl, rfl, rfl, rfl, rfl, rfl, Nat.le_add_right _ _, fun _ h => h⟩ (fun _ _ => rfl) (h.thr 0)
+    (fun x => ⟨x, rfl⟩)
+
+theorem invS'_call {s : St} {t : Tid} (tmo : Option Nat) (h : InvS' s) (hp : (s.loc t).pc = .idle)
+    (hb : (s.loc t).bg = false) : InvS' (doCall s t (s.loc t) tmo) := by
+  have ht := h.thr t
+  have hlt : ∀ u, (s.loc u).hasSeq = true → (s.loc u).seq < s.seqCounter :=
+    fun u hu => h.glob.issued_lt _ ((h.thr u).seq_issued hu)
+  have hfr := h.glob.fresh s.seqCounter (Nat.le_refl _)
+  unfold doCall
+  refine { glob := ?_, thr := ?_, seq_inj := ?_ }
+  · exact {
+      issued_lt := fun q hq => by
+        rcases List.mem_cons.1 hq with rfl | hq
+        · exact Nat.lt_succ_self _
+        · exact Nat.lt_succ_of_lt (h.glob.issued_lt q hq)
+      issued_nodup := List.nodup_cons.2 ⟨fun hm => Nat.lt_irrefl _ (h.glob.issued_lt _ hm), h.glob.issued_nodup⟩
+      fresh := fun q hq => h.glob.fresh q (Nat.le_of_succ_le hq)
+      out_nodup := h.glob.out_nodup
+      out_unanswered := fun q hq =>
+        ⟨(h.glob.out_unanswered q hq).1, Nat.lt_succ_of_lt (h.glob.out_unanswered q hq).2⟩
+      reg_clean := h.glob.reg_clean
+      chan_answer := h.glob.chan_answer
+      obj_answer := h.glob.obj_answer
+      exc_answer := h.glob.exc_answer
+      compl_le := h.glob.compl_le
+      ready_compl := h.glob.ready_compl }
+  · intro u
+    by_cases hu : u = t
+    · subst hu
+      show ThrOK _ u ((setLoc s u _).loc u)
+      rw [setLoc_loc_self]
+      exact {
+        bg_pc := by simp [hb]
+        seq_issued := fun _ => List.mem_cons_self
+        at_c1 := fun _ _ => hfr
+        at_c2 := by simp
+        cb_pc := by simp
+        completing := by simp [PC.completing]
+        data_answer := by simp
+        at_w10 := by simp
+        result_ok := by simp
+        self_dispatch := fun _ hr => by
+          have : (s.cells s.seqCounter).ready = true := hr
+          rw [hfr.1] at this; cases this
+        dl_ttl := by simp [PC.inServe]
+        wdl_le := by simp }
+    · show ThrOK _ u ((setLoc s t _).loc u)
+      rw [setLoc_loc_ne _ _ hu]
+      exact (h.thr u).transfer (fun _ x => List.mem_cons_of_mem _ x) (fun _ _ x => x) (fun _ _ a b => ⟨a, b⟩)
+        (fun _ x => ⟨x, rfl, rfl, rfl, rfl, rfl⟩) (fun _ _ x => x) (fun x => x) (fun _ a b => ⟨a, b⟩)
+        (fun _ _ => rfl) (Nat.le_refl _)
+  · intro u w
+    show ((setLoc s t _).loc u).hasSeq = true → ((setLoc s t _).loc w).hasSeq = true →
+      ((setLoc s t _).loc u).seq = ((setLoc s t _).loc w).seq → u = w
+    by_cases hu : u = t <;> by_cases hw : w = t
+    · intros; rw [hu, hw]
+    · subst hu
+      rw [setLoc_loc_self, setLoc_loc_ne _ _ hw]
+      intro _ a e
+      have := hlt w a
+      rw [← e] at this
+      exact absurd this (Nat.lt_irrefl _)
+    · subst hw
+      rw [setLoc_loc_self, setLoc_loc_ne _ _ hu]
+      intro a _ e
+      have := hlt u a
+      rw [e] at this
+      exact absurd this (Nat.lt_irrefl _)
+    · rw [setLoc_loc_ne _ _ hu, setLoc_loc_ne _ _ hw]
+      exact h.seq_inj u w
+
+theorem invS'_c1 {s : St} {t : Tid} (h : InvS' s) (hp : (s.loc t).pc = .c1) : InvS' (doC1 s t (s.loc t)) := by
+  have ht := h.thr t
+  have hb : (s.loc t).bg = false := ht.bg_false_of_client (by rw [hp]; rfl)
+  have hseq : (s.loc t).hasSeq = true := (hasSeq_iff _).2 ⟨hb, by rw [hp]; decide⟩
+  obtain ⟨f1, f2, f3, f4, f5⟩ := ht.at_c1 hseq hp
+  have hq : (s.loc t).seq < s.seqCounter := h.glob.issued_lt _ (ht.seq_issued hseq)
+  unfold doC1
+  refine h.step' t _ rfl (setPc_hasSeq' _ (by rw [hp]; decide)) ?_ ?_ ?_
+  · refine h.glob.updAt (s.loc t).seq rfl rfl rfl rfl rfl (fun r hr => ?_) (fun _ _ => rfl) (fun _ _ => rfl) hq
+      ?_ ?_ ?_ ?_ ?_
+    · rw [setLoc_cells, setCell_cells_ne _ _ hr]
+    · intro _; simp [f1, f4, f5]
+    · simp [f1]
+    · simp [f1]
+    · simp [f5]
+    · simp [f1]
+  · exact {
+      bg_pc := by simp [hb]
+      seq_issued := fun _ => ht.seq_issued hseq
+      at_c1 := by simp
+      at_c2 := fun _ _ => ⟨f2, f3⟩
+      cb_pc := by simpa [hp, PC.completing] using ht.cb_pc
+      completing := by simp [PC.completing]
+      data_answer := ht.data_answer
+      at_w10 := by simp
+      result_ok := ht.result_ok
+      self_dispatch := fun _ hr => by simp [f1] at hr
+      dl_ttl := by simp [PC.inServe]
+      wdl_le := by simp }
+  · intro u hu
+    have hne : (s.loc u).hasSeq = true → (s.loc u).seq ≠ (s.loc t).seq := fun a e => hu (h.seq_inj u t a hseq e)
+    refine (h.thr u).transfer (fun _ x => x) ?_ (fun _ _ a b => ⟨a, b⟩) ?_ (fun _ _ x => x) ?_ ?_ ?_ (Nat.le_refl _)
+    · intro a _ fr
+      exact freshSeq_of_eq fr (by rw [setLoc_cells, setCell_cells_ne _ _ (hne a)]) rfl (fun x => x) rfl rfl
+    · intro q hq
+      have : q ≠ (s.loc t).seq := fun e => by subst e; rw [f4] at hq; cases hq
+      refine ⟨hq, rfl, ?_, ?_, ?_, ?_⟩ <;> rw [setLoc_cells, setCell_cells_ne _ _ this]
+    · intro x; rw [setLoc_cells, setCell_ready_of]; exact x; rfl
+    · intro _ a b; rw [setLoc_cells, setCell_ready_of] at a; exact ⟨a, b⟩; rfl
+    · intro _ _; rw [setLoc_cells, setCell_ttl_of]; rfl
+
+theorem invS'_c2_aux {s : St} {t : Tid} (p' : PC) (hp' : p' = .c3 ∨ p' = .w0) (h : InvS' s)
+    (hp : (s.loc t).pc = .c2) :
+    InvS' { setLoc s t { s.loc t with pc := p' } with outstanding := s.outstanding ++ [(s.loc t).seq] } := by
+  have ht := h.thr t
+  have hb : (s.loc t).bg = false := ht.bg_false_of_client (by rw [hp]; rfl)
+  have hseq : (s.loc t).hasSeq = true := (hasSeq_iff _).2 ⟨hb, by rw [hp]; decide⟩
+  obtain ⟨f2, f3⟩ := ht.at_c2 hseq hp
+  have hq : (s.loc t).seq < s.seqCounter := h.glob.issued_lt _ (ht.seq_issued hseq)
+  have hok : PC.FrameOK .c2 p' := by rcases hp' with rfl | rfl <;> decide
+  have hmem : ∀ r, r ∈ s.outstanding ++ [(s.loc t).seq] → r ∈ s.outstanding ∨ r = (s.loc t).seq := by
+    intro r hr
+    rcases List.mem_append.1 hr with x | x
+    · exact .inl x
+    · exact .inr (List.mem_singleton.1 x)
+  refine h.step' t _ rfl (setPc_hasSeq' _ (by rw [hp]; decide)) ?_ ?_ ?_
+  · exact {
+      issued_lt := h.glob.issued_lt
+      issued_nodup := h.glob.issued_nodup
+      fresh := fun r hr => by
+        refine freshSeq_of_eq (h.glob.fresh r hr) rfl rfl (fun x => ?_) rfl rfl
+        rcases hmem r x with x | x
+        · exact x
+        · subst x; exact absurd hq (Nat.not_lt.2 hr)
+      out_nodup := List.nodup_append.2 ⟨h.glob.out_nodup, List.pairwise_singleton _ _, fun a ha b hb => by
+        rw [List.mem_singleton.1 hb]; intro e; subst e; exact f3 ha⟩
+      out_unanswered := fun r hr => by
+        rcases hmem r hr with x | x
+        · exact h.glob.out_unanswered r x
+        · subst x; exact ⟨f2, hq⟩
+      reg_clean := h.glob.reg_clean
+      chan_answer := h.glob.chan_answer
+      obj_answer := h.glob.obj_answer
+      exc_answer := h.glob.exc_answer
+      compl_le := h.glob.compl_le
+      ready_compl := h.glob.ready_compl }
+  · refine (ht.setPc p' hp hok).transfer (fun _ x => x) ?_ ?_ (fun _ x => ⟨x, rfl, rfl, rfl, rfl, rfl⟩)
+      (fun _ _ x => x) (fun x => x) (fun _ a b => ⟨a, b⟩) (fun _ _ => rfl) (Nat.le_refl _)
+    · intro _ b; rcases hp' with rfl | rfl <;> cases b
+    · intro _ b; rcases hp' with rfl | rfl <;> cases b
+  · intro u hu
+    have hne : (s.loc u).hasSeq = true → (s.loc u).seq ≠ (s.loc t).seq := fun a e => hu (h.seq_inj u t a hseq e)
+    refine (h.thr u).transfer (fun _ x => x) ?_ ?_ (fun _ x => ⟨x, rfl, rfl, rfl, rfl, rfl⟩)
+      (fun _ _ x => x) (fun x => x) (fun _ a b => ⟨a, b⟩) (fun _ _ => rfl) (Nat.le_refl _)
+    · intro a _ fr
+      refine freshSeq_of_eq fr rfl rfl (fun x => ?_) rfl rfl
+      rcases hmem _ x with x | x
+      · exact x
+      · exact absurd x (hne a)
+    · intro a _ x y
+      refine ⟨x, fun z => ?_⟩
+      rcases hmem _ z with z | z
+      · exact y z
+      · exact hne a z
+
+theorem invS'_c2 {s : St} {t : Tid} (h : InvS' s) (hp : (s.loc t).pc = .c2) : InvS' (doC2 s t (s.loc t)) := by
+  unfold doC2
+  exact invS'_c2_aux _ (by split <;> simp) h hp
+
+theorem invS'_c3 {s : St} {t : Tid} (h : InvS' s) (hp : (s.loc t).pc = .c3) : InvS' (doC3 s t (s.loc t)) := by
+  have ht := h.thr t
+  have hb : (s.loc t).bg = false := ht.bg_false_of_client (by rw [hp]; rfl)
+  have hseq : (s.loc t).hasSeq = true := (hasSeq_iff _).2 ⟨hb, by rw [hp]; decide⟩
+  have hq : (s.loc t).seq < s.seqCounter := h.glob.issued_lt _ (ht.seq_issued hseq)
+  unfold doC3
+  refine h.step' t _ rfl (setPc_hasSeq' _ (by rw [hp]; decide)) ?_ ?_ ?_
+  · refine h.glob.updAt (s.loc t).seq rfl rfl rfl rfl rfl (fun r hr => ?_) (fun _ _ => rfl) (fun _ _ => rfl) hq
+      ?_ ?_ ?_ ?_ ?_
+    · rw [setLoc_cells, setCell_cells_ne _ _ hr]
+    · rw [setLoc_cells, setCell_cells_self]; exact h.glob.reg_clean _
+    · rw [setLoc_cells, setCell_cells_self]; exact h.glob.obj_answer _
+    · rw [setLoc_cells, setCell_cells_self]; exact h.glob.exc_answer _
+    · exact h.glob.compl_le _
+    · rw [setLoc_cells, setCell_cells_self]; exact h.glob.ready_compl _
+  · refine (ht.setPc .w0 hp (by decide)).transfer (fun _ x => x) ?_ ?_ ?_
+      (fun _ _ x => x) ?_ ?_ ?_ (Nat.le_refl _)
+    · intro _ b; cases b
+    · intro _ b; cases b
+    · intro q hq
+      refine ⟨hq, rfl, ?_, ?_, ?_, ?_⟩ <;> rw [setLoc_cells]
+      · rw [setCell_reg_of]; rfl
+      · rw [setCell_ready_of]; rfl
+      · rw [setCell_isExc_of]; rfl
+      · rw [setCell_obj_of]; rfl
+    · intro x; rw [setLoc_cells, setCell_ready_of]; exact x; rfl
+    · intro _ a b; rw [setLoc_cells, setCell_ready_of] at a; exact ⟨a, b⟩; rfl
+    · intro _ b; cases b
+  · intro u hu
+    have hne : (s.loc u).hasSeq = true → (s.loc u).seq ≠ (s.loc t).seq := fun a e => hu (h.seq_inj u t a hseq e)
+    refine (h.thr u).transfer (fun _ x => x) ?_ (fun _ _ a b => ⟨a, b⟩) ?_ (fun _ _ x => x) ?_ ?_ ?_ (Nat.le_refl _)
+    · intro a _ fr
+      exact freshSeq_of_eq fr (by rw [setLoc_cells, setCell_cells_ne _ _ (hne a)]) rfl (fun x => x) rfl rfl
+    · intro q hq
+      refine ⟨hq, rfl, ?_, ?_, ?_, ?_⟩ <;> rw [setLoc_cells]
+      · rw [setCell_reg_of]; rfl
+      · rw [setCell_ready_of]; rfl
+      · rw [setCell_isExc_of]; rfl
+      · rw [setCell_obj_of]; rfl
+    · intro x; rw [setLoc_cells, setCell_ready_of]; exact x; rfl
+    · intro _ a b; rw [setLoc_cells, setCell_ready_of] at a; exact ⟨a, b⟩; rfl
+    · intro a _; rw [setLoc_cells, setCell_cells_ne _ _ (hne a)]
+
+theorem invS'_d1 {s s' : St} {t : Tid} (h : InvS' s) (hp : (s.loc t).pc = .d1)
+    (hs : doD1 s t (s.loc t) = some s') : InvS' s' := by
+  have ht := h.thr t
+  unfold doD1 at hs
+  split at hs
+  · cases hs
+  · rename_i f hd
+    split at hs
+    · rename_i hreg
+      cases hs
+      obtain ⟨g1, g2, g3⟩ := h.glob.reg_clean _ hreg
+      have hq : f.seq < s.seqCounter := Nat.lt_of_not_le (fun hle => by
+        have := (h.glob.fresh _ hle).1
+        rw [this] at hreg; cases hreg)
+      have rdy : ∀ r, ((setCell (markDispatched s f) f.seq { s.cells f.seq with reg := false }).cells r).ready
+          = (s.cells r).ready := fun r => by rw [setCell_ready_of]; rfl; rfl
+      have ttl : ∀ r, ((setCell (markDispatched s f) f.seq { s.cells f.seq with reg := false }).cells r).ttl
+          = (s.cells r).ttl := fun r => by rw [setCell_ttl_of]; rfl; rfl
+      have cne : ∀ r, r ≠ f.seq →
+          (setCell (markDispatched s f) f.seq { s.cells f.seq with reg := false }).cells r = s.cells r :=
+        fun r hr => by rw [setCell_cells_ne _ _ hr]; rfl
+      have pne : ∀ r, r ≠ f.seq → (if r = f.seq then some t else s.popper r) = s.popper r :=
+        fun r hr => if_neg hr
+      refine h.step' t _ rfl (by simp [Loc.hasSeq, hp]) ?_ ?_ ?_
+      · refine h.glob.updAt f.seq rfl rfl rfl rfl rfl cne pne (fun _ _ => rfl) hq ?_ ?_ ?_ ?_ ?_
+        · simp
+        · simp only [setLoc_cells, setCell_cells_self]; exact h.glob.obj_answer _
+        · simp only [setLoc_cells, setCell_cells_self]; exact h.glob.exc_answer _
+        · exact h.glob.compl_le _
+        · intro x
+          have := (rdy f.seq).symm.trans x
+          rw [g3] at this; cases this
+      · exact {
+          bg_pc := by simp [PC.client]
+          seq_issued := by simpa [Loc.hasSeq, hp] using ht.seq_issued
+          at_c1 := by simp
+          at_c2 := by simp
+          cb_pc := by simp [PC.completing]
+          completing := fun _ => ⟨f.seq, f, rfl, hd, rfl, by simp, by simp, g2, (rdy f.seq).trans g3, by simp, by simp⟩
+          data_answer := ht.data_answer
+          at_w10 := by simp
+          result_ok := ht.result_ok
+          self_dispatch := fun a b c => by
+            have b' := (rdy _).symm.trans b
+            have a' : (s.loc t).hasSeq = true := by simpa [Loc.hasSeq, hp] using a
+            by_cases e : (s.loc t).seq = f.seq
+            · rw [show (s.cells (s.loc t).seq).ready = (s.cells f.seq).ready from by rw [e], g3] at b'
+              cases b'
+            · have c' : s.popper (s.loc t).seq = some t := (pne _ e).symm.trans c
+              have := ht.self_dispatch a' b' c'
+              rw [hp] at this; cases this
+          dl_ttl := fun a b => by
+            have a' : (s.loc t).hasSeq = true := by simpa [Loc.hasSeq, hp] using a
+            exact (ht.dl_ttl a' (by rw [hp]; rfl)).trans (ttl _).symm
+          wdl_le := by simp }
+      · intro u hu
+        refine (h.thr u).transfer (fun _ x => x) ?_ (fun _ _ a b => ⟨a, b⟩) ?_ (fun _ _ x => x) ?_ ?_ ?_ (Nat.le_refl _)
+        · intro _ _ fr
+          have : (s.loc u).seq ≠ f.seq := fun e => by
+            have := fr.1
+            rw [e] at this; rw [this] at hreg; cases hreg
+          exact freshSeq_of_eq fr (cne _ this) rfl (fun x => x) (pne _ this) rfl
+        · intro r hr
+          have : r ≠ f.seq := fun e => by subst e; rw [g1] at hr; cases hr
+          refine ⟨(pne r this).trans hr, rfl, ?_, ?_, ?_, ?_⟩ <;>
+            simp only [setLoc_cells, setCell_cells_ne _ _ this, markDispatched_cells]
+        · intro x; exact (rdy _).trans x
+        · intro _ a b
+          refine ⟨(rdy _).symm.trans a, ?_⟩
+          by_cases e : (s.loc u).seq = f.seq
+          · have : some t = some u := (if_pos e).symm.trans b
+            cases this; exact absurd rfl hu
+          · exact (pne _ e).symm.trans b
+        · intro _ _; exact ttl _
+    · cases hs
+      exact h.locOnly' _ same_glob rfl (ht.leaveServe (by rw [hp]; decide)) (leaveServe_hasSeq (by rw [hp]; decide))
+
+theorem invS'_d3 {s s' : St} {t : Tid} (h : InvS' s) (hp : (s.loc t).pc = .d3)
+    (hs : doD3 s t (s.loc t) = some s') : InvS' s' := by
+  have ht := h.thr t
+  unfold doD3 at hs
+  split at hs
+  · rename_i q f hcb hd
+    cases hs
+    obtain ⟨f0, d0, c3, c4, c5, c6, c7, _, _⟩ := ht.compl_facts (by rw [hp]; rfl) hcb
+    rw [hd] at d0; cases d0
+    have hq : q < s.seqCounter := Nat.lt_of_not_le (fun hle => by
+      have := (h.glob.fresh _ hle).2.2.2.1
+      rw [c4] at this; cases this)
+    have hans := ht.data_answer f hd
+    rw [c3] at hans
+    refine h.step' t _ rfl (setPc_hasSeq' _ (by rw [hp]; decide)) ?_ ?_ ?_
+    · refine h.glob.updAt q rfl rfl rfl rfl rfl (fun r hr => ?_) (fun _ _ => rfl) (fun _ _ => rfl) hq ?_ ?_ ?_ ?_ ?_
+      · rw [setLoc_cells, setCell_cells_ne _ _ hr]
+      · rw [setLoc_cells, setCell_cells_self]; exact h.glob.reg_clean _
+      · rw [setLoc_cells, setCell_cells_self]; exact h.glob.obj_answer _
+      · rw [setLoc_cells, setCell_cells_self]
+        intro e he
+        cases he
+        exact ⟨f.val, hans⟩
+      · exact h.glob.compl_le _
+      · rw [setLoc_cells, setCell_cells_self]
+        intro x
+        have : (s.cells q).ready = true := x
+        rw [c7] at this; cases this
+    · exact {
+        bg_pc := by simp [PC.client]
+        seq_issued := by simpa [Loc.hasSeq, hp] using ht.seq_issued
+        at_c1 := by simp
+        at_c2 := by simp
+        cb_pc := by simp [PC.completing]
+        completing := fun _ => ⟨q, f, hcb, hd, c3, c4, by simpa using c5, c6, by simpa using c7, by simp, by simp⟩
+        data_answer := ht.data_answer
+        at_w10 := by simp
+        result_ok := ht.result_ok
+        self_dispatch := fun a b c => by
+          have a' : (s.loc t).hasSeq = true := by simpa [Loc.hasSeq, hp] using a
+          rw [setLoc_cells, setCell_ready_of] at b
+          · have := ht.self_dispatch a' b c
+            rw [hp] at this; cases this
+          · rfl
+        dl_ttl := fun a b => by
+          have a' : (s.loc t).hasSeq = true := by simpa [Loc.hasSeq, hp] using a
+          rw [setLoc_cells, setCell_ttl_of]
+          · exact ht.dl_ttl a' (by rw [hp]; rfl)
+          · rfl
+        wdl_le := by simp }
+    · intro u hu
+      refine (h.thr u).other_completing hu c4 rfl rfl rfl rfl rfl (fun r hr => ?_) (fun _ _ => rfl) ?_ ?_
+      · rw [setLoc_cells, setCell_cells_ne _ _ hr]
+      · intro x; rw [setLoc_cells, setCell_cells_self]; exact x
+      · rw [setLoc_cells, setCell_cells_self]
+  · cases hs
+
+theorem invS'_d4 {s s' : St} {t : Tid} (h : InvS' s) (hp : (s.loc t).pc = .d4)
+    (hs : doD4 s t (s.loc t) = some s') : InvS' s' := by
+  have ht := h.thr t
+  unfold doD4 at hs
+  split at hs
+  · rename_i q f hcb hd
+    cases hs
+    obtain ⟨f0, d0, c3, c4, c5, c6, c7, c8, _⟩ := ht.compl_facts (by rw [hp]; rfl) hcb
+    rw [hd] at d0; cases d0
+    have c8 := c8 (.inl hp)
+    have hq : q < s.seqCounter := Nat.lt_of_not_le (fun hle => by
+      have := (h.glob.fresh _ hle).2.2.2.1
+      rw [c4] at this; cases this)
+    have hans := ht.data_answer f hd
+    rw [c3] at hans
+    refine h.step' t _ rfl (setPc_hasSeq' _ (by rw [hp]; decide)) ?_ ?_ ?_
+    · refine h.glob.updAt q rfl rfl rfl rfl rfl (fun r hr => ?_) (fun _ _ => rfl) (fun _ _ => rfl) hq ?_ ?_ ?_ ?_ ?_
+      · rw [setLoc_cells, setCell_cells_ne _ _ hr]
+      · rw [setLoc_cells, setCell_cells_self]; exact h.glob.reg_clean _
+      · rw [setLoc_cells, setCell_cells_self]
+        intro v hv
+        cases hv
+        exact ⟨f.exc, hans⟩
+      · rw [setLoc_cells, setCell_cells_self]; exact h.glob.exc_answer _
+      · exact h.glob.compl_le _
+      · rw [setLoc_cells, setCell_cells_self]
+        intro x
+        have : (s.cells q).ready = true := x
+        rw [c7] at this; cases this
+    · exact {
+        bg_pc := by simp [PC.client]
+        seq_issued := by simpa [Loc.hasSeq, hp] using ht.seq_issued
+        at_c1 := by simp
+        at_c2 := by simp
+        cb_pc := by simp [PC.completing]
+        completing := fun _ => ⟨q, f, hcb, hd, c3, c4, by simpa using c5, c6, by simpa using c7,
+          by simpa using c8, by simp⟩
+        data_answer := ht.data_answer
+        at_w10 := by simp
+        result_ok := ht.result_ok
+        self_dispatch := fun a b c => by
+          have a' : (s.loc t).hasSeq = true := by simpa [Loc.hasSeq, hp] using a
+          rw [setLoc_cells, setCell_ready_of] at b
+          · have := ht.self_dispatch a' b c
+            rw [hp] at this; cases this
+          · rfl
+        dl_ttl := fun a b => by
+          have a' : (s.loc t).hasSeq = true := by simpa [Loc.hasSeq, hp] using a
+          rw [setLoc_cells, setCell_ttl_of]
+          · exact ht.dl_ttl a' (by rw [hp]; rfl)
+          · rfl
+        wdl_le := by simp }
+    · intro u hu
+      refine (h.thr u).other_completing hu c4 rfl rfl rfl rfl rfl (fun r hr => ?_) (fun _ _ => rfl) ?_ ?_
+      · rw [setLoc_cells, setCell_cells_ne _ _ hr]
+      · intro x; rw [setLoc_cells, setCell_cells_self]; exact x
+      · rw [setLoc_cells, setCell_cells_self]
+  · cases hs
+
+theorem invS'_d5 {s s' : St} {t : Tid} (h : InvS' s) (hp : (s.loc t).pc = .d5)
+    (hs : doD5 s t (s.loc t) = some s') : InvS' s' := by
+  have ht := h.thr t
+  unfold doD5 at hs
+  split at hs
+  · rename_i q hcb
+    cases hs
+    obtain ⟨f, hd, c3, c4, c5, c6, c7, c8, c9⟩ := ht.compl_facts (by rw [hp]; rfl) hcb
+    have c8 := c8 (.inr hp)
+    have c9 := c9 hp
+    have hq : q < s.seqCounter := Nat.lt_of_not_le (fun hle => by
+      have := (h.glob.fresh _ hle).2.2.2.1
+      rw [c4] at this; cases this)
+    have cne : ∀ r, r ≠ q → (if r = q then s.completions r + 1 else s.completions r) = s.completions r :=
+      fun r hr => if_neg hr
+    have ceq : (if q = q then s.completions q + 1 else s.completions q) = 1 := by
+      rw [if_pos rfl, c6]
+    refine h.step' t _ rfl (leaveServe_hasSeq (by rw [hp]; decide)) ?_ ?_ ?_
+    · refine h.glob.updAt q rfl rfl rfl rfl rfl (fun r hr => ?_) (fun _ _ => rfl) cne hq ?_ ?_ ?_ ?_ ?_
+      · show (setCell _ _ _).cells r = _
+        rw [setCell_cells_ne _ _ hr]
+      · show ((setCell _ _ _).cells q).reg = true → _
+        rw [setCell_cells_self]
+        intro x
+        have : (s.cells q).reg = true := x
+        rw [c5] at this; cases this
+      · show ∀ v, ((setCell _ _ _).cells q).obj = some v → _
+        rw [setCell_cells_self]; exact h.glob.obj_answer _
+      · show ∀ e, ((setCell _ _ _).cells q).isExc = some e → _
+        rw [setCell_cells_self]; exact h.glob.exc_answer _
+      · exact Nat.le_of_eq ceq
+      · show ((setCell _ _ _).cells q).ready = true → _ ∧ ((setCell _ _ _).cells q).obj.isSome = true ∧
+          ((setCell _ _ _).cells q).isExc.isSome = true
+        rw [setCell_cells_self]
+        intro _
+        refine ⟨ceq, ?_, ?_⟩
+        · show (s.cells q).obj.isSome = true
+          rw [c9]; rfl
+        · show (s.cells q).isExc.isSome = true
+          rw [c8]; rfl
+    · exact thrOK_leaveServe (fun hb => ht.seq_issued ((hasSeq_iff _).2 ⟨hb, by rw [hp]; decide⟩)) ht.result_ok
+    · intro u hu
+      refine (h.thr u).other_completing hu c4 rfl rfl rfl rfl rfl (fun r hr => ?_) cne ?_ ?_
+      · show (setCell _ _ _).cells r = _
+        rw [setCell_cells_ne _ _ hr]
+      · intro _
+        show ((setCell _ _ _).cells q).ready = true
+        rw [setCell_cells_self]
+      · show ((setCell _ _ _).cells q).ttl = _
+        rw [setCell_cells_self]
+  · cases hs
+
+theorem invS'_peer {s : St} {q : Seq} (exc : Bool) (v : Nat) (h : InvS' s) (hq : q ∈ s.outstanding) :
+    InvS' (doPeer s q exc v) := by
+  obtain ⟨a0, hlt⟩ := h.glob.out_unanswered q hq
+  have ane : ∀ r, r ≠ q → (if r = q then some (exc, v) else s.answer r) = s.answer r := fun r hr => if_neg hr
+  have hans : ∀ r x, s.answer r = some x → (if r = q then some (exc, v) else s.answer r) = some x := by
+    intro r x hx
+    have : r ≠ q := fun e => by subst e; rw [a0] at hx; cases hx
+    rw [if_neg this]; exact hx
+  unfold doPeer
+  refine { glob := ?_, thr := ?_, seq_inj := h.seq_inj }
+  · exact {
+      issued_lt := h.glob.issued_lt
+      issued_nodup := h.glob.issued_nodup
+      fresh := fun r hr => by
+        have : r ≠ q := Nat.ne_of_gt (Nat.lt_of_lt_of_le hlt hr)
+        exact freshSeq_of_eq (h.glob.fresh r hr) rfl (ane r this) List.mem_of_mem_erase rfl rfl
+      out_nodup := h.glob.out_nodup.erase q
+      out_unanswered := fun r hr => by
+        obtain ⟨r1, r2⟩ := (h.glob.out_nodup.mem_erase_iff).1 hr
+        obtain ⟨r3, r4⟩ := h.glob.out_unanswered r r2
+        exact ⟨(ane r r1).trans r3, r4⟩
+      reg_clean := h.glob.reg_clean
+      chan_answer := fun f hf => by
+        rcases List.mem_append.1 hf with x | x
+        · exact hans _ _ (h.glob.chan_answer f x)
+        · rw [List.mem_singleton.1 x]
+          exact if_pos rfl
+      obj_answer := fun r w hw => by
+        obtain ⟨e, he⟩ := h.glob.obj_answer r w hw
+        exact ⟨e, hans _ _ he⟩
+      exc_answer := fun r e he => by
+        obtain ⟨w, hw⟩ := h.glob.exc_answer r e he
+        exact ⟨w, hans _ _ hw⟩
+      compl_le := h.glob.compl_le
+      ready_compl := h.glob.ready_compl }
+  · intro u
+    refine (h.thr u).transfer (fun _ x => x) ?_ ?_ (fun _ x => ⟨x, rfl, rfl, rfl, rfl, rfl⟩) hans (fun x => x)
+      (fun _ a b => ⟨a, b⟩) (fun _ _ => rfl) (Nat.le_refl _)
+    · intro _ _ fr
+      have : (s.loc u).seq ≠ q := fun e => fr.2.2.1 (e ▸ hq)
+      exact freshSeq_of_eq fr rfl (ane _ this) List.mem_of_mem_erase rfl rfl
+    · intro _ _ a b
+      have : (s.loc u).seq ≠ q := fun e => b (e ▸ hq)
+      exact ⟨(ane _ this).trans a, fun x => b (List.mem_of_mem_erase x)⟩
+
+/-! ### the theorems -/
+
+theorem invS'_init : InvS' init where
+  glob := {
+    issued_lt := by simp [init]
+    issued_nodup := by simp [init]
+    fresh := fun _ _ => ⟨rfl, rfl, by simp [init], rfl, rfl⟩
+    out_nodup := by simp [init]
+    out_unanswered := by simp [init]
+    reg_clean := by simp [init]
+    chan_answer := by simp [init]
+    obj_answer := by simp [init]
+    exc_answer := by simp [init]
+    compl_le := by simp [init]
+    ready_compl := by simp [init] }
+  thr := fun t => {
+    bg_pc := by simp [init]
+    seq_issued := by simp [init, Loc.hasSeq]
+    at_c1 := by simp [init]
+    at_c2 := by simp [init]
+    cb_pc := by simp [init]
+    completing := by simp [init, PC.completing]
+    data_answer := by simp [init]
+    at_w10 := by simp [init]
+    result_ok := by simp [init]
+    self_dispatch := by simp [init, Loc.hasSeq]
+    dl_ttl := by simp [init, Loc.hasSeq]
+    wdl_le := by simp [init] }
+  seq_inj := by simp [init, Loc.hasSeq]
+
+theorem invS'_run {s s' : St} (t : Tid) (h : InvS' s) (hs : stepRun s t = some s') : InvS' s' := by
+  simp only [stepRun] at hs
+  generalize hpc : (s.loc t).pc = pc at hs
+  cases pc <;> simp only [Option.some.injEq, reduceCtorEq] at hs
+  case c1 => exact hs ▸ invS'_c1 h hpc
+  case c2 => exact hs ▸ invS'_c2 h hpc
+  case c3 => exact hs ▸ invS'_c3 h hpc
+  case w0 => exact hs ▸ invS'_w0 h hpc
+  case s0 => exact hs ▸ invS'_s0 h hpc
+  case s1 => exact invS'_s1 h hpc hs
+  case s2 => exact hs ▸ invS'_s2 h hpc
+  case s2w => exact hs ▸ invS'_s2w h hpc
+  case zz => exact invS'_zz h hpc hs
+  case s2r => exact invS'_s2r h hpc hs
+  case s3 => exact hs ▸ invS'_s3 h hpc
+  case p0 => exact invS'_p0 h hpc hs
+  case r0 => exact hs ▸ invS'_r0 h hpc
+  case n0 => exact invS'_n0 h hpc hs
+  case n1 => exact hs ▸ invS'_n1 h hpc
+  case n2 => exact hs ▸ invS'_n2 h hpc
+  case d0 => exact hs ▸ invS'_d0 h hpc
+  case d1 => exact invS'_d1 h hpc hs
+  case d2 => exact invS'_d2 h hpc hs
+  case d3 => exact invS'_d3 h hpc hs
+  case d4 => exact invS'_d4 h hpc hs
+  case d5 => exact invS'_d5 h hpc hs
+  case w9 => exact hs ▸ invS'_w9 h hpc
+  case w10 => exact hs ▸ invS'_w10 h hpc
+  case b0 => exact hs ▸ invS'_b0 h hpc
+  case bS => exact hs ▸ invS'_bS h hpc
+
+theorem invS'_step {s s' : St} (a : Actor) (h : InvS' s) (hs : step s a = some s') : InvS' s' := by
+  cases a with
+  | call t tmo =>
+    simp only [step] at hs
+    split at hs
+    · rename_i hc; cases hs; exact invS'_call tmo h hc.1 hc.2
+    · cases hs
+  | bg t =>
+    simp only [step] at hs
+    split at hs
+    · rename_i hc; cases hs; exact invS'_bg h hc.1
+    · cases hs
+  | stop t =>
+    simp only [step] at hs
+    split at hs
+    · rename_i hc; cases hs; exact invS'_stop h hc
+    · cases hs
+  | run t => exact invS'_run t h hs
+  | peer q exc v =>
+    simp only [step] at hs
+    split at hs
+    · rename_i hc; cases hs; exact invS'_peer exc v h hc
+    · cases hs
+  | tick d =>
+    simp only [step, Option.some.injEq] at hs
+    exact hs ▸ invS'_tick d h
+
+theorem invS'_of_reachable {s : St} (h : Reachable s) : InvS' s := by
+  induction h with
+  | init => exact invS'_init
+  | step a _ hs ih => exact invS'_step a ih hs
+
 end Rpyc.Conc.Serve
